@@ -102,7 +102,10 @@ def run(repo: Repo, rep: Report, tier: str) -> None:
     sub = f"{rd.module.relpath}:render_dataclass Meta key maps"
     # one line maps api->python, the other python->api, both from the same pairs
     ok = len(floops) == 2 and sorted(map(tuple, orders)) == [("api", "py"), ("py", "api")]
-    if ok:
+    if len(floops) < 2 or len(orders) < 2:
+        # the two rendering loops over field_mappings were not recognised (comprehensions, helper, format()): the recogniser failed, not the code
+        rep.error(f"R3.2: cannot find the two loops that render the Meta key maps from field_mappings in render_dataclass (found {len(floops)} loops, {len(orders)} written lines)")
+    elif ok:
         rep.ok("R3.2", sub, "key_transform_with_load and key_transform_with_dump are rendered from the same field_mappings pairs, swapped (mutually inverse by construction)", rd.loc())
     else:
         rep.violation("R3.2", sub, f"{rd.fq}|meta-maps|{orders}", f"the two Meta maps are not the swapped rendering of one mapping: {texts}", rd.loc())
